@@ -94,7 +94,7 @@ func (p *Packet) Length() int {
 
 // Frames returns the number of data frames in the packet
 func (p *Packet) Frames() int {
-	if p.shape == nil {
+	if p.shape == nil || p.format == nil {
 		return 0
 	}
 	nchan := 1
@@ -103,8 +103,11 @@ func (p *Packet) Frames() int {
 			nchan *= int(s)
 		}
 	}
-
-	return int(p.payloadLength) / (p.format.wordlen * nchan)
+	framesize := p.format.wordlen * nchan
+	if framesize <= 0 {
+		return 0
+	}
+	return int(p.payloadLength) / framesize
 }
 
 // SequenceNumber returns the packet's internal sequenceNumber
@@ -194,7 +197,8 @@ func (p *Packet) ReadValue(sample int) int {
 	case []int64:
 		return int(d[sample])
 	default:
-		panic("Oh no! Type of d is not known in Packet.ReadValue()")
+		// Payloads of mixed or unsupported word types are kept as raw bytes: no sample values.
+		return 0
 	}
 }
 
@@ -325,9 +329,11 @@ func (p *Packet) Bytes() []byte {
 // ChannelInfo returns the number of channels in this packet, and the first one
 func (p *Packet) ChannelInfo() (nchan, offset int) {
 	nchan = 1
-	for _, s := range p.shape.Sizes {
-		if s > 0 {
-			nchan *= int(s)
+	if p.shape != nil {
+		for _, s := range p.shape.Sizes {
+			if s > 0 {
+				nchan *= int(s)
+			}
 		}
 	}
 	return nchan, int(p.offset)
@@ -458,6 +464,18 @@ func ReadPacket(data io.Reader) (p *Packet, err error) {
 			p.payloadLabel = val
 		default:
 			p.otherTLV = append(p.otherTLV, val)
+		}
+	}
+
+	// A packet cannot hold more channels than bytes. Rejecting absurd shapes here also
+	// keeps the product of the shape's sizes from overflowing in Frames and ChannelInfo.
+	if p.shape != nil {
+		nchan := 1
+		for _, s := range p.shape.Sizes {
+			nchan *= int(s)
+			if nchan > maxPACKETLENGTH {
+				return nil, fmt.Errorf("payload shape %v has more than %d channels", p.shape.Sizes, maxPACKETLENGTH)
+			}
 		}
 	}
 
